@@ -68,6 +68,7 @@ type Contract struct {
 	AllocBound   uint64   // >0: every make([]T, n) in the function has n <= AllocBound (obligation kind "alloc")
 	AllocProps   []string
 	Reveal       []string // opaque specification functions whose definition this proof may use
+	Assumed      []*Clause // trusted facts assumed at entry (`assume`), not obligations of callers
 	Counts       []string // callees whose calls made by this function are counted (ghost counters read by vcCalls)
 	AtCalls      []*Clause
 	LightCalls   bool   // proof hint: quantified postconditions of callees are not imported
@@ -85,6 +86,7 @@ type Contract struct {
 func (c *Contract) AllClauses() []*Clause {
 	var out []*Clause
 	out = append(out, c.Requires...)
+	out = append(out, c.Assumed...)
 	out = append(out, c.Ensures...)
 	out = append(out, c.AtCalls...)
 	var ks []int
@@ -195,6 +197,11 @@ func ParseContractFile(pkgKey, path string) ([]*Contract, error) {
 			cur.Unroll[k] = n
 		case "requires":
 			cur.Requires = append(cur.Requires, &Clause{Kind: "requires", Props: props, Text: rest, Line: it.line, N: len(cur.Requires)})
+		case "assume":
+			// a trusted fact about the environment of this function (for example a property of
+			// a package-level value): assumed when the function itself is verified, not asked
+			// of its callers, and listed in the evidence
+			cur.Assumed = append(cur.Assumed, &Clause{Kind: "assume", Props: props, Text: rest, Line: it.line, N: len(cur.Assumed)})
 		case "ensures":
 			cur.Ensures = append(cur.Ensures, &Clause{Kind: "ensures", Props: props, Text: rest, Line: it.line, N: len(cur.Ensures)})
 		case "cases":
@@ -314,8 +321,6 @@ func ParseContractFile(pkgKey, path string) ([]*Contract, error) {
 			cur.Safe = append(cur.Safe, props...)
 		case "note":
 			cur.Notes = append(cur.Notes, rest)
-		case "assume":
-			cur.Assumes = append(cur.Assumes, rest)
 		default:
 			return nil, fmt.Errorf("%s:%d: unknown keyword %q", path, it.line, kw)
 		}
